@@ -311,6 +311,7 @@ func (g Gateway) Set(ctx context.Context, in *hydrapb.SetRequest) (*hydrapb.SetR
 					treasureInterface := swampInterface.CreateTreasure(item.Key)
 					guardID := treasureInterface.StartTreasureGuard(true)
 					defer treasureInterface.ReleaseTreasureGuard(guardID)
+					verifhook.Point("gateway.set.guarded")
 
 					// set the content type and content
 					keyValuesToTreasure(item, treasureInterface, guardID)
